@@ -630,8 +630,8 @@ func init() {
 			if c.Thorough {
 				wls = append(wls, core.Workload{Name: "edit_pairs", N: n * 16, Fn: c09Edits(true)})
 				r.Require("edit_pairs", 100000)
-				wls = append(wls, core.Workload{Name: "native_fuzzing", N: 4, Workers: 1, Fn: c09Fuzz(400000)})
-				r.Require("fuzz_executions", 1000000)
+				wls = append(wls, core.Workload{Name: "native_fuzzing", N: 4, Workers: 1, Fn: c09Fuzz(1500000)})
+				r.Require("fuzz_executions", 4000000)
 			}
 			return wls
 		},
